@@ -5,7 +5,7 @@ use proptest::prelude::*;
 
 use crate::interp::ops::{Fault, OpKind, Outcome};
 use crate::interp::world::{RingCfg, Start};
-use crate::interp::{KAct, Step};
+use crate::interp::{CancelChoice, KAct, Step};
 
 pub fn start() -> impl Strategy<Value = Start> {
     prop_oneof![
@@ -55,6 +55,27 @@ pub fn kind_basic() -> impl Strategy<Value = OpKind> {
     ]
 }
 
+/// Kinds that hand memory to the kernel.
+pub fn kind_memory() -> impl Strategy<Value = OpKind> {
+    prop_oneof![
+        1 => Just(OpKind::Truncate),
+        2 => (0u16..5000).prop_map(|len| OpKind::WriteStatic { len }),
+        4 => (0u16..5000).prop_map(|len| OpKind::WriteVec { len }),
+        4 => (1u16..5000, 0u16..64).prop_map(|(cap, prefill)| OpKind::ReadVec { cap, prefill }),
+    ]
+}
+
+/// Kinds whose result carries a value (so a result delivered to the wrong
+/// operation is visible).
+pub fn kind_valued() -> impl Strategy<Value = OpKind> {
+    prop_oneof![
+        1 => Just(OpKind::Truncate),
+        3 => (1u16..5000).prop_map(|len| OpKind::WriteStatic { len }),
+        3 => (1u16..5000).prop_map(|len| OpKind::WriteVec { len }),
+        4 => (1u16..5000, 0u16..64).prop_map(|(cap, prefill)| OpKind::ReadVec { cap, prefill }),
+    ]
+}
+
 pub fn kact() -> impl Strategy<Value = KAct> {
     prop_oneof![
         8 => any::<u16>().prop_map(|op| KAct::Complete { op }),
@@ -70,7 +91,7 @@ pub fn step(kind: BoxedStrategy<OpKind>, max_faults: usize, drops: u32) -> impl 
     prop_oneof![
         6 => (kind, proptest::collection::vec(fault(), 0..=max_faults), outcome()).prop_map(|(kind, faults, outcome)| Step::Start { kind, faults, outcome }),
         8 => (any::<u16>(), any::<bool>()).prop_map(|(op, fresh_waker)| Step::Poll { op, fresh_waker }),
-        drops => any::<u16>().prop_map(|op| Step::DropOp { op }),
+        drops => (any::<u16>(), prop_oneof![Just(CancelChoice::Wins), Just(CancelChoice::Already), Just(CancelChoice::NotFound)]).prop_map(|(op, cancel)| Step::DropOp { op, cancel }),
         5 => kact().prop_map(Step::Kernel),
         5 => (proptest::collection::vec(kact(), 0..5), any::<bool>()).prop_map(|(inline, block)| Step::RingPoll { inline, block }),
     ]
